@@ -240,6 +240,15 @@ def hdLine (d : HDDrv) (lineNo : Nat) (ts : List String) : HDDrv × List String 
         (if last.isNone then [] else ["C07.last-action-not-cleared-between-hands"]))
       ({ d with model := some (reset m), handOpen := false, reqView := none, answered := [] }, out)
     | _, _, _ => (d, [s!"BADLINE {lineNo} hd-between"])
+  | "failedstart" :: rest =>
+    -- the backend refused to create the hand: the table opened a hand (count raised) that does not exist; it stays
+    -- `opened`, and every action from here on meets "no hand is being played"
+    let stt := (kv rest "st").getD "?"
+    let hasg := (kv rest "hasgame").getD "?"
+    let (d, out) := viol d (
+      (if stt == "playing" then ["C10.table-says-playing-although-the-hand-was-not-created"] else []) ++
+      (if hasg == "1" then ["C10.hand-state-present-although-the-hand-was-not-created"] else []))
+    ({ d with model := some (reset m), handOpen := false, reqView := none, answered := [], cnt := d.cnt.bump "failed-starts" }, out)
   | "abort" :: _ => ({ d with dead := true, cnt := d.cnt.bump "dropped-by-harness" }, [])
   | "withheld" :: rest =>
     -- one asked player stayed silent; everybody else answered; the response time-out was waited out
